@@ -152,7 +152,7 @@ Proof.
   intros [Hsp Hfp Hfr Hso Hme Hall].
   destruct s as [b c m p f fr ol h n hd k ou].
   cbn [base cap mem sp fp frames opens heap nheap handles nh out] in *.
-  destruct o as [v| |i|i v|i|x|x v|i|a| |nb].
+  destruct o as [v| |i|i v|i|x|x v|i|a| |nb|i|a lc|a lc].
   - (* push *) constructor; cbn -[Z.mul Z.add Z.sub]; auto. replace (p + W) with (p + W * 1) by lia. apply aligned_add; assumption.
   - (* pop *) constructor; cbn -[Z.mul Z.add Z.sub]; auto. replace (p - W) with (p - W * 1) by lia. apply aligned_sub; assumption.
   - constructor; cbn -[Z.mul Z.add Z.sub]; auto.
@@ -219,6 +219,14 @@ Proof.
       exists j. reflexivity.
     + intros u a Hu Ha. rewrite Hh in Ha.
       destruct (in_dec Nat.eq_dec u ol) as [I|I]; [exact I|]. apply (Hall u a); assumption.
+  - (* new variable instance: the machine does nothing *)
+    constructor; cbn -[Z.mul Z.add Z.sub]; auto.
+  - (* tail call, fixed *)
+    cbn [step]. destruct (close_to f m h ol) as [h' ol'] eqn:E.
+    destruct (close_to_oinv _ _ b _ _ _ _ n Hso Hme Hall E) as [A [B C]].
+    constructor; cbn -[Z.mul Z.add Z.sub]; auto. apply aligned_sub; assumption.
+  - (* tail call, as found *)
+    constructor; cbn -[Z.mul Z.add Z.sub]; auto. apply aligned_sub; assumption.
 Qed.
 
 Lemma init_oinv b c : OInv (init_st b c).
@@ -292,7 +300,8 @@ Qed.
 
 Definition alphabet : list op :=
   [OPush 1; OPop; OGetLocal 0; OGetLocal 1; OSetLocal 0 7; OSetLocal 1 8; OCapture 0; OCapture 1;
-   OGetUp 0; OGetUp 1; OSetUp 0 5; OSetUp 1 6; OClose 0; OClose 1; OCall 1; OCall 2; ORet; OGrow 5000; OGrow 1048].
+   OGetUp 0; OGetUp 1; OSetUp 0 5; OSetUp 1 6; OClose 0; OClose 1; OCall 1; OCall 2; ORet; OGrow 5000; OGrow 1048;
+   ONewVar 0; ONewVar 1; OTailCall 1 1; OTailCall 1 2].
 
 Definition BOUND : nat := 6.
 
@@ -320,3 +329,34 @@ Proof.
   rewrite (srun_grow_invariant l1), (srun_grow_invariant l2).
   fold no_grow. rewrite E. reflexivity.
 Qed.
+
+(* ---- the discipline is necessary ---- *)
+(* a slot is given to a new variable instance (next loop iteration) while the closure of the
+   previous iteration still has an OPEN upvalue on it: the machine shares one upvalue between
+   both closures, the spec does not.  With CLOSE_UPVALUES_TO before the new instance the reads
+   agree. *)
+Definition reuse_witness (close : bool) : list op :=
+  [OPush 0; OPush 1; OCapture 1] ++ (if close then [OClose 1] else []) ++
+  [ONewVar 1; OSetLocal 1 2; OCapture 1; OGetUp 0; OGetUp 1].
+
+Lemma reuse_without_close :
+  D init_sst (reuse_witness false) = false /\
+  out (run (init_st 1000 8) (reuse_witness false)) = [2; 2] /\
+  sout (srun init_sst (reuse_witness false)) = [2; 1] /\
+  D init_sst (reuse_witness true) = true /\
+  out (run (init_st 1000 8) (reuse_witness true)) = [2; 1] /\
+  sout (srun init_sst (reuse_witness true)) = [2; 1].
+Proof. repeat split; vm_compute; reflexivity. Qed.
+
+(* a tail call reuses the frame while a closure created by the caller has an open upvalue on a
+   parameter slot: without opCloseUpvalues(fp) the closure reads the callee's argument *)
+Definition tailcall_witness : list op :=
+  [OPush 0; OPush 3; OCapture 1; OPush 0; OPush 2; OTailCall 2 2; OGetUp 0; OSetLocal 1 9; OGetUp 0].
+
+Lemma tailcall_without_close :
+  D init_sst tailcall_witness = true /\
+  fits_run (init_st 1000 8) tailcall_witness = true /\
+  out (run (init_st 1000 8) tailcall_witness) = [3; 3] /\
+  sout (srun init_sst tailcall_witness) = [3; 3] /\
+  out (run (init_st 1000 8) (map as_found tailcall_witness)) = [9; 2].
+Proof. repeat split; vm_compute; reflexivity. Qed.
